@@ -37,6 +37,17 @@ THEOREMS = [
     "GeoVerif.Survey.invPerm_spec",
     "GeoVerif.Survey.sort_cells_coords",
 ]
+THEOREMS += [
+    "GeoVerif.Depths.place_matched",
+    "GeoVerif.Depths.place_other",
+    "GeoVerif.Depths.addLog_attached",
+    "GeoVerif.Depths.addLog_keeps",
+    "GeoVerif.Depths.sortBy_att",
+    "GeoVerif.Depths.argsort_perm",
+    "GeoVerif.Depths.addLogs_attached",
+    "GeoVerif.Depths.addCall_attached",
+    "GeoVerif.Depths.addCall_keeps",
+]
 RULE = (
     "collar on a quarter lattice; survey tables of 1-6 rows with non-decreasing float32-exact depths (25% with a repeated depth, "
     "50% starting at depth 0), azimuth/dip from a pool incl. 0/90/-90/45/negative; 8-14 query depths per table (0, each station, "
@@ -47,7 +58,7 @@ ASSUMPTIONS = [
     "station directions (cos/sin) are the implementation's; only sums/products are compared (tolerance 2^-36 relative)",
     "zero-length legs: np.divide(where=...) leaves uninitialised memory that is multiplied by 0; exact in the model, NaN in IEEE if the garbage is non-finite - the oracle checks for NaN, the model cannot exhibit it",
     "Euclidean path length (needs cos^2+sin^2=1) is outside the model",
-    "depth/interval data additions (merge_arrays, match_values with tolerance) are checked by the oracle, not modelled",
+    "interval tables (validate_interval_data) are checked by the oracle, not modelled; depth logs are modelled (Depths) for holes without interval tables, under the separation the theorems state (depths present more than twice the collocation distance apart)",
 ]
 LEVEL_TEXT = (
     "Lean theorems over exact rationals for every sorted augmented table and every depth: depth 0 is the collar (desurvey_zero), "
@@ -55,10 +66,14 @@ LEVEL_TEXT = (
     "direction itself where they coincide (desurvey_leg, dev_mean, dev_straight), the left piece reaches the next station and the "
     "right piece starts there - continuity (desurvey_station, desurvey_after_station, locs_succ), beyond the last survey the last "
     "leg's direction continues (desurvey_beyond); re-sorting by any permutation with the inverse applied to cells keeps every cell "
-    "on the same positions (sort_cells_coords). Tied to the code by exact-rational differential runs; data additions by oracle."
+    "on the same positions (sort_cells_coords). Data additions (model Depths = validate_depth_data + match_values/merge_arrays + "
+    "sort_depths): after one add_data call with any number of depth logs, sampled at new or existing depths in any order, every "
+    "sample sits at a vertex whose depth is the sample's and everything attached before still is (addCall_attached, addCall_keeps), "
+    "for any permutation of the vertices (sortBy_att). Tied to the code by exact-rational differential runs of desurvey and of "
+    "sequences of add_data calls; interval tables by oracle."
 )
 LEVEL_NOTE = "Trusted: Lean kernel (+Mathlib ring/linarith/field_simp), harness, NumPy. Partial: continuity at stations with repeated depths is covered by correspondence, the theorem assumes t_i < t_{i+1}."
-TECHNIQUE = "Lean 4 proof (induction on the survey table, linear arithmetic over Rat) on an executable model of desurvey + exact-rational differential correspondence"
+TECHNIQUE = "Lean 4 proof (induction on the survey table, linear arithmetic over Rat; induction over the samples and logs of add_data calls, permutation argument for the sort) on executable models of desurvey and of the depth-log bookkeeping + exact-rational differential correspondence"
 
 TOL = Fraction(1, 2 ** 36)
 
@@ -301,13 +316,94 @@ def process(ctx, cases):
     ctx.extra["worst_abs_error"] = float(worst)
 
 
+def frs(x):
+    f = Fraction(float(x))
+    return f"{f.numerator}/{f.denominator}"
+
+
+def depth_logs(ctx: Ctx, only=None):
+    """Correspondence of the `Depths` model (validate_depth_data, match_values/merge_arrays, sort_depths): holes that carry
+    depth logs only; every add_data call hands over 1-3 logs sampled at new and at existing depths, in any order; after
+    every call the DEPTH record and every column of the real hole must be the model's."""
+    from geoh5py.objects import Drillhole
+    from geoh5py.workspace import Workspace
+    rng = ctx.rng
+    eps = 1e-4
+    path = ctx.scratch / "c18_logs.geoh5"
+    lines, pend = [], []
+    cases = only or []
+    if not only:
+        for _ in range(ctx.n(60, 1500)):
+            known, calls, k = [], [], 0
+            for _c in range(rng.randrange(1, 5)):
+                logs = []
+                for _l in range(rng.choice([1, 1, 2, 3])):
+                    ds = []
+                    for _s in range(rng.randrange(1, 5)):
+                        x = rng.choice(known) if known and rng.random() < 0.55 else rng.randrange(0, 240) / 4.0
+                        if x not in ds:
+                            ds.append(x)
+                    known += [x for x in ds if x not in known]
+                    vals = [None if rng.random() < 0.15 else x * 10.0 + k for x in ds]
+                    logs.append({"name": f"L{k}", "depth": ds, "values": vals})
+                    k += 1
+                calls.append(logs)
+            cases.append({"part": "depth-logs", "calls": calls})
+    with Workspace.create(path) as ws:
+        for ci, case in enumerate(cases):
+            dh = Drillhole.create(ws, collar=[0.0, 0.0, 0.0], surveys=np.c_[[0.0, 100.0], [0.0, 0.0], [-90.0, -90.0]], name=f"h{ci}")
+            state = {"depth": [], "cols": []}
+            nontrivial = False
+            for call in case["calls"]:
+                entries = {l["name"]: {"depth": np.array(l["depth"], dtype=float),
+                                       "values": np.array([np.nan if v is None else v for v in l["values"]], dtype=float)} for l in call}
+                line = {"m": "depths", "op": "call", "eps": frs(eps), "depth": list(state["depth"]), "cols": list(state["cols"]),
+                        "logs": [[l["name"], [[frs(d), None if v is None else frs(v)] for d, v in zip(l["depth"], l["values"])]] for l in call]}
+                try:
+                    dh.add_data(entries)
+                except Exception as e:  # noqa: BLE001
+                    ctx.fail(case, f"add_data of depth logs raised {type(e).__name__}: {str(e)[:80]}", f"C18:add-raises-{type(e).__name__}")
+                    break
+                dep = dh.get_data("DEPTH")[0].values
+                n = dh.n_vertices
+                impl_depth = [frs(x) for x in np.asarray(dep, dtype=float)]
+                impl_cols = []
+                for c in dh.children:
+                    if getattr(c, "name", "").startswith("L"):
+                        v = np.asarray(c.values, dtype=float)
+                        v = np.r_[v, [np.nan] * (n - len(v))]
+                        impl_cols.append([c.name, [None if np.isnan(x) else frs(x) for x in v]])
+                impl_cols.sort(key=lambda c: int(c[0][1:]))
+                lines.append(line)
+                pend.append((case, impl_depth, impl_cols))
+                state = {"depth": impl_depth, "cols": impl_cols}       # the next call starts from what the hole really holds
+                nontrivial = nontrivial or len(call) > 1
+                ctx.count(f"depth-logs:call-with-{len(call)}-logs")
+            ctx.case(case, nontrivial)
+            ctx.traces += 1
+    os.remove(path)
+    outs = ctx.driver.run(lines)
+    for (case, idepth, icols), out in zip(pend, outs):
+        mdepth = out.get("depth") if isinstance(out, dict) else None
+        mcols = sorted(out.get("cols", []), key=lambda c: int(c[0][1:])) if isinstance(out, dict) else None
+        canon = lambda xs: [None if x is None else pf(x) for x in xs]  # noqa: E731
+        if mdepth is None or canon(mdepth) != canon(idepth):
+            ctx.disagree(case, "Depths correspondence: DEPTH record after the call", model=str(mdepth)[:300], impl=str(idepth)[:300])
+        elif [(c[0], canon(c[1])) for c in mcols] != [(c[0], canon(c[1])) for c in icols]:
+            ctx.disagree(case, "Depths correspondence: columns after the call", model=str(mcols)[:400], impl=str(icols)[:400])
+
+
 def run(ctx: Ctx):
     import warnings
     warnings.filterwarnings("ignore")
     process(ctx, [gen_case(ctx.rng) for _ in range(ctx.n(200, 4000))])
+    depth_logs(ctx)
 
 
 def replay(ctx: Ctx, payload):
     import warnings
     warnings.filterwarnings("ignore")
-    process(ctx, [payload["case"]])
+    if (payload.get("case") or {}).get("part") == "depth-logs":
+        depth_logs(ctx, only=[payload["case"]])
+    else:
+        process(ctx, [payload["case"]])
